@@ -48,6 +48,7 @@ var verifSched struct {
 	preempts  int
 	maxPre    int
 	allSteps  bool
+	onlyAt    string
 	crashDone bool
 	lastCrash bool
 	mainProc  int
@@ -123,7 +124,7 @@ func verifStep(visible bool, op string, paths ...string) {
 			select {} // the process is gone: no deferred cleanup runs
 		}
 	}
-	if visible || s.allSteps {
+	if (visible || s.allSteps) && (s.onlyAt == "" || strings.Contains(what, s.onlyAt)) {
 		s.yield <- me
 		<-me.resume
 	}
@@ -152,6 +153,14 @@ func VerifSpawnCrashable(f func()) {
 
 func VerifRun(maxPreempt int)         { verifRunThreads(maxPreempt, false) }
 func VerifRunAllSteps(maxPreempt int) { verifRunThreads(maxPreempt, true) }
+
+// VerifRunAt explores deep but narrow: up to maxPreempt preemptions, offered only
+// at the steps whose description contains class (e.g. "readfile list").
+func VerifRunAt(maxPreempt int, class string) {
+	verifSched.onlyAt = class
+	verifRunThreads(maxPreempt, false)
+	verifSched.onlyAt = ""
+}
 func VerifCrashed() bool              { return verifSched.lastCrash }
 func VerifAs(proc int)                { verifSched.mainProc = proc }
 
